@@ -1,1 +1,228 @@
-From EpyV Require Import Model.Kernel.
+(* C08 - occupied edges and hitting times record a consistent contact tree.
+   Statements only; proofs in Proofs/ContactBase.v, ContactForest.v, ContactInv.v, ContactTime.v
+   (on top of the C07 development: runs as [Steps], the run invariant [J]).
+
+   The records of Model/Compart.v: [cw_occ] lists the occupied edges as (infected, infector,
+   tOccupied) in the order markOccupied set them, [cw_hit] the (node, tHitting) in the order
+   markHit set them; both marks are first-only.  [once_model cm]: no event function of the table
+   (stochastic or posted) moves a node INTO a compartment that an infection (marking) event takes
+   nodes out of, and the infector's compartments are none of those: a node is infected at most
+   once.  Holds for SIR, SEIR, SIR_FixedRecovery, Opinion; fails for SIS, SIRS, SIS_FixedRecovery
+   (C08_once_tables).  Everything is for every such well-formed table, every network, initial
+   assignment, oracle, fuel, both schedulers (every run is a [Steps] sequence: C07_runs_stoch,
+   C07_runs_sync).  SIvR and SIR_VariableInfection are not in the Coq model. *)
+From Coq Require Import List ZArith QArith Bool Arith Relations Sorted.
+From EpyV Require Import Model.Kernel Model.Loci Model.Compart Proofs.KernelLoops
+  Proofs.CompartRun Proofs.CompartInv Proofs.CompartDiagram Proofs.CompartModels
+  Proofs.ContactBase Proofs.ContactForest Proofs.ContactInv Proofs.ContactTime.
+Import ListNotations.
+
+(* ---------------------------------------------------------------- the invariant *)
+(* K = the C07 run invariant J, "posted events sit on node elements", and Forest; it holds after
+   set-up, at the final state, and on the state every call of the run was entered on *)
+Theorem C08_forest_inv : forall cm nodes edges init maxtime monitor rs ls ds cs s,
+  let tb := mk_table cm nodes edges init maxtime monitor in
+  wf_model cm = true -> once_model cm = true -> graph_okb nodes edges = true -> init_ok cm nodes init = true ->
+  Steps tb (setup_state tb rs ls ds) cs s ->
+  Forest cm nodes edges init (world s) /\ Forall (fun sc => Forest cm nodes edges init (world (fst sc))) cs.
+Proof.
+  intros cm nodes edges init maxtime monitor rs ls ds cs s tb Hwf Ho Hg Hi H.
+  destruct (K_steps cm nodes edges init maxtime monitor rs ls ds cs s Hwf Ho Hg Hi H) as [A B].
+  split; [exact (proj2 (proj2 A))|]. eapply Forall_impl; [|exact B]. intros sc Hk. exact (proj2 (proj2 Hk)).
+Qed.
+
+(* preserved by every single call of an event function, whichever scheduler makes it *)
+Theorem C08_forest_inv_call : forall cm nodes edges init maxtime monitor (s : st cworld) c,
+  let tb := mk_table cm nodes edges init maxtime monitor in
+  wf_model cm = true -> once_model cm = true -> K cm nodes edges init s -> call_ok tb c s -> K cm nodes edges init (after tb c s).
+Proof. intros cm nodes edges init maxtime monitor s c tb Hwf Ho Hk Hok. exact (K_call cm nodes edges init maxtime monitor s c Hwf Ho Hk Hok). Qed.
+
+(* what Forest says *)
+Theorem C08_forest_meaning : forall cm nodes edges init w, Forest cm nodes edges init w ->
+  let st := cw_st w in let st0 := Loci.setup (cm_specs cm) nodes edges init in
+  (forall v c, getc st v = Some c -> In c (sus cm) -> forall x, In x (cw_occ w) -> child x <> v /\ parent x <> v)
+  /\ cw_hit w = map (fun x => (child x, snd x)) (cw_occ w)
+  /\ (forall x, In x (cw_occ w) -> adjb edges (child x) (parent x) = true)
+  /\ forestL (cw_occ w)
+  /\ (forall v c, getc st v = Some c -> In c (sus cm) -> getc st0 v = Some c)
+  /\ (forall x, In x (cw_occ w) -> exists c, In c (sus cm) /\ getc st0 (child x) = Some c).
+Proof. intros cm nodes edges init w H. exact H. Qed.
+
+(* ---------------------------------------------------------------- C08_unique_parent *)
+(* every node with a hitting time has exactly one occupied edge on which it is the infected end,
+   and tOccupied of that edge = tHitting of the node; nodes have at most one hitting time *)
+Theorem C08_unique_parent : forall cm nodes edges init w n t, Forest cm nodes edges init w -> In (n, t) (cw_hit w) ->
+  exists m, In (n, m, t) (cw_occ w) /\ forall m' t', In (n, m', t') (cw_occ w) -> m' = m /\ t' = t.
+Proof. intros cm nodes edges init w n t. exact (unique_parent cm nodes edges init w n t). Qed.
+
+Theorem C08_one_hit_per_node : forall cm nodes edges init w, Forest cm nodes edges init w -> NoDup (map fst (cw_hit w)).
+Proof. intros cm nodes edges init w. exact (hit_NoDup cm nodes edges init w). Qed.
+
+(* hit nodes are exactly the infected ends of occupied edges; they were susceptible at set-up
+   (seeds carry no hitting time); a node that is still susceptible touches no occupied edge *)
+Theorem C08_hit_nodes : forall cm nodes edges init w, Forest cm nodes edges init w ->
+  (forall n, In n (map fst (cw_hit w)) <-> In n (map child (cw_occ w)))
+  /\ (forall n t, In (n, t) (cw_hit w) -> exists c, In c (sus cm) /\ getc (Loci.setup (cm_specs cm) nodes edges init) n = Some c)
+  /\ (forall v c, getc (cw_st w) v = Some c -> In c (sus cm) -> forall x, In x (cw_occ w) -> child x <> v /\ parent x <> v).
+Proof.
+  intros cm nodes edges init w F. split; [intro n; exact (hit_iff_child cm nodes edges init w n F)|].
+  split; [intros n t; exact (hit_not_seed cm nodes edges init w n t F) | exact (proj1 F)].
+Qed.
+
+(* the edge and the hit were recorded by an infection event function entered from the scheduler on
+   that very pair, on a member of its locus, with handler time = clock = the recorded time *)
+Theorem C08_event_time : forall cm nodes edges init maxtime monitor rs ls ds cs s n m t,
+  let tb := mk_table cm nodes edges init maxtime monitor in
+  wf_model cm = true -> once_model cm = true -> graph_okb nodes edges = true -> init_ok cm nodes init = true ->
+  Steps tb (setup_state tb rs ls ds) cs s -> In (n, m, t) (cw_occ (world s)) ->
+  exists sc x, In sc cs /\ snd sc = CEv x t (EE n m) /\ clock (fst sc) = t /\ call_ok tb (snd sc) (fst sc).
+Proof. intros cm nodes edges init maxtime monitor rs ls ds cs s n m t tb. exact (occ_event_time cm nodes edges init maxtime monitor rs ls ds cs s n m t). Qed.
+
+(* the occupied edges are exactly the marks of the run, in call order *)
+Theorem C08_occupied_are_infections : forall cm nodes edges init maxtime monitor rs ls ds cs s,
+  let tb := mk_table cm nodes edges init maxtime monitor in
+  wf_model cm = true -> once_model cm = true -> graph_okb nodes edges = true -> init_ok cm nodes init = true ->
+  Steps tb (setup_state tb rs ls ds) cs s -> cw_occ (world s) = infections cm cs.
+Proof. intros cm nodes edges init maxtime monitor rs ls ds cs s tb. exact (occ_is_infections cm nodes edges init maxtime monitor rs ls ds cs s). Qed.
+
+(* ---------------------------------------------------------------- C08_times_increase *)
+(* the infector's own occupied edge (if it has one: otherwise it is a root) comes earlier in the record *)
+Theorem C08_infector_earlier : forall cm nodes edges init w o1 x o2 t', Forest cm nodes edges init w ->
+  cw_occ w = o1 ++ x :: o2 -> In (parent x, t') (cw_hit w) -> exists m', In (parent x, m', t') o1.
+Proof. intros cm nodes edges init w o1 x o2 t'. exact (infector_earlier cm nodes edges init w o1 x o2 t'). Qed.
+
+(* whenever the times of the infection calls of the run are R-related in call order, so are the
+   hitting times of infector and infected.  R := Qle: never-decreasing call times; R := Qlt: strictly
+   increasing ones, which is the case under Gillespie dynamics when every ln(1/r) drawn is > 0. *)
+Theorem C08_times_increase : forall (R : Q -> Q -> Prop) cm nodes edges init maxtime monitor rs ls ds cs s,
+  let tb := mk_table cm nodes edges init maxtime monitor in
+  wf_model cm = true -> once_model cm = true -> graph_okb nodes edges = true -> init_ok cm nodes init = true ->
+  Steps tb (setup_state tb rs ls ds) cs s -> StronglySorted R (map snd (infections cm cs)) ->
+  forall n m t t', In (n, m, t) (cw_occ (world s)) -> In (m, t') (cw_hit (world s)) -> R t' t.
+Proof. intros R cm nodes edges init maxtime monitor rs ls ds cs s tb. exact (times_along_tree cm nodes edges init maxtime monitor R rs ls ds cs s). Qed.
+
+(* with C03: in every run that did not exhaust its fuel or oracle the infector's hitting time is
+   not later than the infected node's - both schedulers, hypothesis-free apart from p >= 0, ln >= 0 *)
+Theorem C08_times_nondecreasing_stoch : forall cm nodes edges init maxtime monitor pf fuel rs ls ds,
+  let tb := mk_table cm nodes edges init maxtime monitor in
+  wf_model cm = true -> once_model cm = true -> graph_okb nodes edges = true -> init_ok cm nodes init = true ->
+  (forall ev, In ev (cm_events cm) -> (0 <= ce_p ev)%Q) -> Forall (Qle 0) ls ->
+  let r := stoch_run tb pf fuel rs ls ds in r_stuck r = false ->
+  forall n m t t', In (n, m, t) (cw_occ (world (r_final r))) -> In (m, t') (cw_hit (world (r_final r))) -> (t' <= t)%Q.
+Proof. intros cm nodes edges init maxtime monitor pf fuel rs ls ds tb. exact (times_stoch cm nodes edges init maxtime monitor pf fuel rs ls ds). Qed.
+
+Theorem C08_times_nondecreasing_sync : forall cm nodes edges init maxtime monitor pf fuel rs ds,
+  let tb := mk_table cm nodes edges init maxtime monitor in
+  wf_model cm = true -> once_model cm = true -> graph_okb nodes edges = true -> init_ok cm nodes init = true ->
+  let r := sync_run tb pf fuel rs ds in r_stuck r = false ->
+  forall n m t t', In (n, m, t) (cw_occ (world (r_final r))) -> In (m, t') (cw_hit (world (r_final r))) -> (t' <= t)%Q.
+Proof. intros cm nodes edges init maxtime monitor pf fuel rs ds tb. exact (times_sync cm nodes edges init maxtime monitor pf fuel rs ds). Qed.
+
+(* NOT PROVED (kept as the statement of the property): strictness t' < t for whole runs.
+     C08_times_strict_sync : ... r := sync_run ... -> r_stuck r = false -> In (n, m, t) occ -> In (m, t') hit -> t' < t
+       (argument: the tranche of a step is drawn before any of its events fire, a selected pair (n, m)
+        has m infectious then, and a node infected during the step was susceptible then)
+     C08_times_strict_stoch : the same for stoch_run under Forall (Qlt 0) ls
+   What is proved towards them: C08_times_increase with R := Qlt reduces both to "the infection
+   calls of the run have strictly increasing times", and C08_infector_earlier gives the order of
+   the records without any hypothesis. *)
+
+(* ---------------------------------------------------------------- C08_acyclic *)
+(* the occupied edges, oriented infected -> infector: the infector is unique, no cycle, and every
+   infected node is joined to exactly one root - a node that was never marked (its tree's seed) *)
+Theorem C08_acyclic : forall cm nodes edges init w, Forest cm nodes edges init w ->
+  let P := par (cw_occ w) in
+  (forall n m m' t t', In (n, m, t) (cw_occ w) -> In (n, m', t') (cw_occ w) -> m = m' /\ t = t')
+  /\ (forall n, ~ clos_trans Z P n n)
+  /\ (forall n, In n (map fst (cw_hit w)) -> exists r, clos_refl_trans Z P n r /\ ~ In r (map fst (cw_hit w))).
+Proof.
+  intros cm nodes edges init w F. pose proof (proj1 (proj2 (proj2 (proj2 F)))) as F5. cbv zeta.
+  split; [exact (forestL_functional _ F5)|]. split; [exact (forestL_acyclic _ F5)|].
+  intros n Hn. apply (hit_iff_child cm nodes edges init w n F) in Hn. destruct (forestL_root _ F5 n Hn) as [r [P R]].
+  exists r. split; [exact P|]. intros Hr. apply R. apply (hit_iff_child cm nodes edges init w r F). exact Hr.
+Qed.
+
+(* the list form of the same fact: every occupied edge joined a node that no earlier occupied edge
+   touches to a different node (pendant-vertex construction of a forest) *)
+Theorem C08_forest_list : forall occ, forestL occ <->
+  match occ with [] => True | x :: rest => child x <> parent x /\ (forall y, In y rest -> child y <> child x /\ child y <> parent x) /\ forestL rest end.
+Proof. intros [|x rest]; reflexivity. Qed.
+
+(* ---------------------------------------------------------------- C08_skeleton *)
+(* skeletonise() = the full node set with exactly the occupied edges: a network edge is kept iff
+   it is an occupied pair in either orientation, and every occupied pair is a kept edge *)
+Theorem C08_skeleton : forall cm nodes edges init maxtime monitor rs ls ds cs s,
+  let tb := mk_table cm nodes edges init maxtime monitor in
+  wf_model cm = true -> once_model cm = true -> graph_okb nodes edges = true -> init_ok cm nodes init = true ->
+  Steps tb (setup_state tb rs ls ds) cs s ->
+  let w := world s in
+  fst (skeleton w) = nodes
+  /\ (forall e, In e (snd (skeleton w)) <-> In e edges /\ exists x, In x (cw_occ w) /\ (e = (child x, parent x) \/ e = (parent x, child x)))
+  /\ (forall x, In x (cw_occ w) -> In (child x, parent x) (snd (skeleton w)) \/ In (parent x, child x) (snd (skeleton w))).
+Proof.
+  intros cm nodes edges init maxtime monitor rs ls ds cs s tb Hwf Ho Hg Hi H. cbv zeta.
+  destruct (K_steps cm nodes edges init maxtime monitor rs ls ds cs s Hwf Ho Hg Hi H) as [((_ & _ & Hn & He & _) & _ & F) _].
+  destruct (skeleton_spec cm nodes edges init maxtime monitor (world s) F He) as (A & B & C).
+  split; [rewrite A; exact Hn | split; [exact B | exact C]].
+Qed.
+
+(* ---------------------------------------------------------------- C08_sis_first_hit *)
+(* every table, SIS included: the hitting times are the marks of the run applied first-only, so
+   the recorded hitting time of a node is the time of the FIRST infection call on it *)
+Theorem C08_sis_first_hit : forall cm nodes edges init maxtime monitor rs ls ds cs s,
+  let tb := mk_table cm nodes edges init maxtime monitor in
+  Steps tb (setup_state tb rs ls ds) cs s ->
+  let marks := map (fun x => (child x, snd x)) (infections cm cs) in
+  NoDup (map fst (cw_hit (world s)))
+  /\ forall n t, In (n, t) (cw_hit (world s)) <-> exists l1 l2, marks = l1 ++ (n, t) :: l2 /\ ~ In n (map fst l1).
+Proof.
+  intros cm nodes edges init maxtime monitor rs ls ds cs s tb H. cbv zeta.
+  pose proof (hits_first_only cm nodes edges init maxtime monitor _ cs s H) as E.
+  assert (E0 : cw_hit (world (setup_state tb rs ls ds)) = []).
+  { destruct (setup_state_lw tb rs ls ds (mk_table_post_only cm nodes edges init maxtime monitor)) as [_ B]. rewrite B. reflexivity. }
+  rewrite E0 in E. fold tb in E. rewrite E. split; [apply first_only_NoDup; constructor|].
+  intros n t. rewrite first_only_spec. cbn [In map]. unfold proj_hit. tauto.
+Qed.
+
+(* ---------------------------------------------------------------- the shipped tables *)
+Example C08_once_tables : forall p q r u,
+  once_model (sir_cm p q) = true /\ once_model (seir_cm p q r u) = true /\ once_model (opinion_cm p q) = true
+  /\ once_model (sir_fr_cm p q) = true
+  /\ once_model (sis_cm p q) = false /\ once_model (sirs_cm p q r) = false /\ once_model (sis_fr_cm p q) = false.
+Proof. intros. repeat split; vm_compute; reflexivity. Qed.
+
+Example C08_susceptible_compartments : forall p q r u,
+  sus (sir_cm p q) = [3]%Z /\ sus (seir_cm p q r u) = [4; 4]%Z /\ sus (opinion_cm p q) = [1]%Z.
+Proof. intros. repeat split; vm_compute; reflexivity. Qed.
+
+(* ---------------------------------------------------------------- non-vacuity *)
+(* SIR on the path 0 - 1 - 2, node 0 infected: 0 infects 1, 1 infects 2, under both schedulers *)
+Open Scope Q_scope.
+Definition ex_cm : cmodel := sir_cm (1 # 2) (1 # 4).
+Definition ex_tb : table cworld := mk_table ex_cm [0; 1; 2]%Z [(0, 1); (1, 2)]%Z [(0, 1); (1, 3); (2, 3)]%Z 10 None.
+
+Example C08_example_stoch :
+  let r := stoch_run ex_tb 50 50 [1#2; 1#4; 1#2; 1#4; 1#2; 3#4; 1#2; 1#2; 1#2; 1#2; 1#2; 1#2; 1#2]
+                     [1; 1; 1; 1; 1; 1; 1; 1] [0; 0; 0; 0; 0; 0; 0]%nat in
+  let w := world (r_final r) in
+  wf_model ex_cm = true /\ once_model ex_cm = true /\ graph_okb [0; 1; 2]%Z [(0, 1); (1, 2)]%Z = true
+  /\ init_ok ex_cm [0; 1; 2]%Z [(0, 1); (1, 3); (2, 3)]%Z = true /\ r_stuck r = false
+  /\ cw_occ w = [(1%Z, 0%Z, 4 # 3); (2%Z, 1%Z, 7 # 3)] /\ cw_hit w = [(1%Z, 4 # 3); (2%Z, 7 # 3)]
+  /\ skeleton w = ([0; 1; 2], [(0, 1); (1, 2)])%Z.
+Proof. cbv zeta. repeat split; vm_compute; reflexivity. Qed.
+
+Example C08_example_sync :
+  let r := sync_run ex_tb 50 50 [1#4; 3#4; 1#4; 3#4; 3#4; 1#8; 1#8; 1#8] [] in
+  let w := world (r_final r) in
+  r_stuck r = false /\ cw_occ w = [(1%Z, 0%Z, 1); (2%Z, 1%Z, 2)] /\ cw_hit w = [(1%Z, 1); (2%Z, 2)]
+  /\ skeleton w = ([0; 1; 2], [(0, 1); (1, 2)])%Z.
+Proof. cbv zeta. repeat split; vm_compute; reflexivity. Qed.
+
+(* SIS: node 1 is infected at 1, recovers at 2, is infected again at 3: its hitting time stays 1 *)
+Example C08_example_sis_first_hit :
+  let tb := mk_table (sis_cm 1 1) [0; 1]%Z [(0, 1)]%Z [(0, 1); (1, 2)]%Z 5 None in
+  let r := sync_run tb 50 50 [3#2; 1#2; 3#2; 1#2; 3#2; 1#2; 3#2; 3#2] [] in
+  r_stuck r = false
+  /\ handlers_of_ex (r_out r) = [(1%nat, 1, EE 1 0); (0%nat, 2, EN 1); (1%nat, 3, EE 1 0)]
+  /\ cw_hit (world (r_final r)) = [(1%Z, 1)].
+Proof. cbv zeta. repeat split; vm_compute; reflexivity. Qed.
